@@ -49,6 +49,71 @@ def _known_functions():
     return _KNOWN[0]
 
 
+def _ll_functions(text):
+    """{name: (is_internal, fingerprint)} of the functions defined in an LLVM assembly text.  The fingerprint is a digest of the type signature and the
+    sequence of opcodes with the names of the external callees (calls of functions internal to the unit count as one anonymous callee, debug intrinsics are
+    left out): a function that was only renamed -- and whose callers were adjusted -- keeps it."""
+    import re as _re
+    import hashlib
+    heads = list(_re.finditer(r"^define ([^@\n]*)@([\w.$]+|\"[^\"]+\")\(([^\n]*)\{\s*$", text, _re.M))
+    internal = set(m.group(2).strip('"') for m in heads if "internal" in m.group(1))
+    out = {}
+    for m in heads:
+        name = m.group(2).strip('"')
+        end = text.find("\n}\n", m.end())
+        body = text[m.end():end if end >= 0 else len(text)]
+        seq = [_re.sub(r"\s+", " ", _re.sub(r"(internal|dso_local|hidden|linkonce_odr|noundef|#\\d+|!dbg !\\d+)", "", m.group(1))).strip(),
+               str(m.group(3).count("%"))]
+        for l in body.split("\n"):
+            l = l.strip()
+            if not l or l.endswith(":") or l.startswith(";"):
+                continue
+            mm = _re.match(r"(?:%[\w.]+ = )?(?:tail |musttail |notail )?([a-z_]+)", l)
+            if not mm:
+                continue
+            op = mm.group(1)
+            if op in ("call", "invoke"):
+                cm = _re.search(r"@([\w.$]+|\"[^\"]+\")\(", l)
+                cal = cm.group(1).strip('"') if cm else "indirect"
+                if cal.startswith("llvm.dbg") or cal.startswith("llvm.lifetime"):
+                    continue
+                op = "call:" + ("?" if cal in internal else cal)
+            seq.append(op)
+        out[name] = (name in internal, hashlib.sha1("\n".join(seq).encode()).hexdigest()[:16])
+    return out
+
+
+_FPS = [None]
+
+
+def _known_fingerprints():
+    if _FPS[0] is None:
+        import json as _json
+        p = os.path.join(os.path.dirname(os.path.abspath(__file__)), "known_fingerprints.json")
+        _FPS[0] = _json.load(open(p)) if os.path.exists(p) else {}
+    return _FPS[0]
+
+
+def _undo_renames(text, unit, known):
+    """a function of the pinned tree that is missing while an unknown function with the same fingerprint appeared was renamed: give it its old name back in the
+    assembly text (definition, every use, debug name), so that the rules -- keyed by the names of the pinned tree -- and the helper inlining see the same program"""
+    import re as _re
+    fps = _known_fingerprints().get(unit, {})
+    if not fps:
+        return text, {}
+    funcs = _ll_functions(text)
+    missing = [k for k in known if k not in funcs and k in fps]
+    unknown = [k for k in funcs if k not in known]
+    renames = {}
+    for u in unknown:
+        cands = [k for k in missing if funcs[u][1] in fps[k] and k not in renames.values()]
+        if len(cands) == 1 and len([x for x in unknown if funcs[x][1] == funcs[u][1]]) == 1:
+            renames[u] = cands[0]
+    for u, k in renames.items():
+        text = _re.sub(r"@%s(?![\w.$])" % _re.escape(u), "@" + k, text)
+    return text, renames
+
+
 class Workspace(object):
     def __init__(self):
         self.dir = tempfile.mkdtemp(prefix="yaep-sa-")
@@ -102,6 +167,12 @@ class Workspace(object):
         known = _known_functions().get(os.path.basename(path))
         if known is not None:
             import re as _re
+            txt0 = open(out + ".raw.ll").read()
+            txt1, ren = _undo_renames(txt0, os.path.basename(path) + "|" + ",".join(defs), known)
+            if ren:
+                open(out + ".raw.ll", "w").write(txt1)
+                self.renames = getattr(self, "renames", {})
+                self.renames.update(ren)
             for mm in _re.finditer(r"^define [^@\n]*@([\w.$]+|\"[^\"]+\")\(", open(out + ".raw.ll").read(), _re.M):
                 fn = mm.group(1).strip('"')
                 if fn not in known:
